@@ -50,3 +50,28 @@ Section MatProofs.
     intros E. inversion E; subst. eauto.
   Qed.
 End MatProofs.
+
+(* ---- the instance on the concrete HKDF-SHA256 of coq/C14 ---- *)
+From CJ Require Import C16.Concrete.
+
+(* the concrete functions are instances of the parametric ones by definition; they
+   are kept opaque here so that no tactic ever starts evaluating SHA-256 *)
+Lemma concrete_key_valid s c1 c2 :
+  certs_from_seed_conc s = Some (c1, c2) ->
+  (1 <= cm_d c1 < p256_order /\ cm_serial c1 < serial_max) /\
+  (1 <= cm_d c2 < p256_order /\ cm_serial c2 < serial_max).
+Proof.
+  unfold certs_from_seed_conc. generalize hkdf_conc. intros h H.
+  destruct (certs_from_seed_split h s c1 c2 H) as (r & E1 & r' & E2).
+  destruct (cert_of_valid _ _ _ E1) as (A & B & _). destruct (cert_of_valid _ _ _ E2) as (C & D & _).
+  split; split; assumption.
+Qed.
+
+Lemma concrete_same_secret s1 s2 : s1 = s2 -> material_conc s1 = material_conc s2.
+Proof. intros ->. reflexivity. Qed.
+
+Lemma concrete_different_route :
+  hkdf_hello_injective hkdf_conc -> forall s1 s2, s1 <> s2 -> hello_random_conc s1 <> hello_random_conc s2.
+Proof.
+  unfold hello_random_conc. generalize hkdf_conc. intros h. exact (different_secret_different_route h).
+Qed.
